@@ -480,6 +480,13 @@ def e(ck: Check) -> None:
     tb = _tbranch(fm, lp)
     VAR = f"elem({se.val(lp.iter, hdr)})"
     probs_in, probs_fn = [], []
+    # every call gets to the per-variable loop: a `return` before it claims "nothing to percolate" on grounds that nothing
+    # here proves (declared regulators say nothing about constants: `y -?? x`, `$x: y & !y`)
+    from .common import escapes as _esc
+    e0 = _esc(fm, fm.cfg.entry, [hdr], None, need_pre=False)
+    if e0 is not None:
+        probs_fn.append(f"a path returns before the loop over the variables (reaches {e0}): the network is handed back without being "
+                        f"percolated")
     if se.val(lp.iter, hdr) != f"{bn_p}.variables()":
         probs_fn.append(f"the loop ranges over `{se.val(lp.iter, hdr)}`, not over all variables of the network")
     U = logic.B(f"none:{bn_p}.get_update_function({VAR})")
@@ -597,6 +604,37 @@ def f_(ck: Check) -> None:
                         probs.append(f"line {getattr(d_, 'lineno', c.lineno)}: the restriction uses `{text(v_)[:50] if v_ is not None else '?'}`, "
                                      f"not the node's own space: variables fixed by percolation (or by the rest of the space) stay "
                                      f"in the reduced object when this path is taken")
+            if callee == "restrict_petrinet_to_subspace":
+                # the base is the global net or the cached net of the node's parent (a net over a *super*space of the node);
+                # a net picked from any other node may already have lost places of variables that are free here
+                import re as _re
+                b0 = call_arg(c, 0, "petri_net")
+                bvals = [(d_, v_) for d_, v_ in fm.value_defs(b0.id, cn)] if isinstance(b0, ast.Name) else [(cn, b0)]
+                for d_, v_ in bvals:
+                    if v_ is None:
+                        probs.append("the base net has an opaque origin")
+                        continue
+                    for arm in ([v_.body, v_.orelse] if isinstance(v_, ast.IfExp) else [v_]):
+                        while isinstance(arm, ast.IfExp):
+                            arm = arm.body if text(arm.orelse) == "self.petri_net" else arm.orelse
+                        k = fm.key(arm, d_)
+                        if k == "self.petri_net":
+                            continue
+                        m_ = _re.match(r"^FIELD<self\|(\w+)\|percolated_petri_net>$", k)
+                        okb = False
+                        if m_:
+                            okb = True
+                            for pd in fm.cfg.reaching_defs(m_.group(1), d_):
+                                if pd.kind == "entry" and m_.group(1) in f.params():
+                                    continue
+                                pv = pd.ast.value if pd.kind == "stmt" and isinstance(pd.ast, (ast.Assign, ast.AnnAssign)) else None
+                                if pv is not None and fm.key(pv, pd) == f"FIELD<self|{node_p}|parent_node>":
+                                    continue
+                                okb = False
+                        if not okb:
+                            probs.append(f"line {getattr(d_, 'lineno', c.lineno)}: the restriction starts from `{text(arm)[:60]}`, which is "
+                                         f"neither the global net nor the cached net of the node's (given or recorded) parent: a net of "
+                                         f"another node need not be over a superspace, and what it has lost cannot be restored")
             if callee == "percolate_network":
                 # the node's network is over the free variables only: the fixed ones are removed, not kept as constants
                 g = ck.prog.fm("biobalm.space_utils", "percolate_network")
